@@ -389,6 +389,29 @@ fn episode(k: usize, kind: u64, rng: &mut Rng, g: &mut BinGen) -> (Vec<String>, 
             e.extend(std::iter::repeat_n(1u8, n));
             exp = e;
         }
+        30 => {
+            // a process that fails inside a receive filter while the select holds a heap-binary candidate
+            // (and sources that captured one); it is not awaited
+            let (x, _) = g.heap(rng);
+            let (y, yb) = g.heap(rng);
+            let (c, _) = g.heap(rng);
+            let s = *rng.pick(&[0u32, 4, 40]);
+            st.push(format!("k{k} = {c}"));
+            st.push(format!("e{k} = @{{ a = ! [#'int, #'bin {{ =m, w = [{s}, 0] spin, z = [m, k{k}] __binary_concat__, [1, 0] __integer_divide__ }}], 0x00 }}"));
+            st.push(format!("{x} e{k}"));
+            st.push(format!("r{k} = {y}"));
+            exp = yb;
+        }
+        31 => {
+            // the same with an int candidate: only the filter closure holds a binary made at run time
+            let (y, yb) = g.heap(rng);
+            let (c, _) = g.heap(rng);
+            st.push(format!("k{k} = {c}"));
+            st.push(format!("e{k} = @{{ a = ! [#'int {{ =m, z = [k{k}, k{k}] __binary_concat__, [m, 0] __integer_modulo__ }}], 0x00 }}"));
+            st.push(format!("7 e{k}"));
+            st.push(format!("r{k} = {y}"));
+            exp = yb;
+        }
         _ => {
             // two filter sources: a message for the higher-priority one can arrive while the
             // lower-priority filter is in flight
@@ -407,7 +430,7 @@ fn episode(k: usize, kind: u64, rng: &mut Rng, g: &mut BinGen) -> (Vec<String>, 
     (st, exp)
 }
 
-pub const NKINDS: u64 = 30;
+pub const NKINDS: u64 = 32;
 
 impl Property for C06 {
     fn id(&self) -> &'static str {
